@@ -71,24 +71,14 @@ Answer(b, k) ==
 
 Sent(b) == IF cfg.mode = "pdh" THEN ans[b] = "match" ELSE ans[b] \in {"match", "mismatch"}
 
-\* waive = TRUE only in FedFetchTraceKF (known finding KF-C18-2 of the legacy path): a remote's
-\* collection whose manifest lacks the final newline may be handed over with that newline added -
-\* relnl[b+1] = "what the client got is what b sent plus a final newline, with only +A -> +R<b>-
-\* rewritten" - provided the result hashes to the requested value.  Nothing else is waived.
-GetDoneX(ok, pdhOK, rel, relnl, waive) ==
+GetDone(ok, pdhOK, rel) ==
     /\ done = "no"
     /\ ok => ( \/ (\E b \in 1 .. cfg.n :                                   \* (a), (c): from a remote
                      Sent(b) /\ rel[b + 1] /\ ((cfg.mode = "pdh") => pdhOK))
-               \/ (ans[0] \in {"match", "mismatch"} /\ rel[1])              \* the local cluster's own copy
-               \/ (waive /\ \E b \in 1 .. cfg.n :
-                     /\ ans[b] \in {"match", "mismatch"} /\ relnl[b + 1] /\ ~rel[b + 1]
-                     /\ ((cfg.mode = "pdh") => pdhOK)) )
+               \/ (ans[0] \in {"match", "mismatch"} /\ rel[1]) )            \* the local cluster's own copy
     /\ (cfg.mode = "pdh" /\ ans[0] = "s404" /\ \E b \in 1 .. cfg.n : ans[b] = "match") => ok   \* (b)
     /\ done' = IF ok THEN "ok" ELSE "err"
     /\ UNCHANGED <<cfg, ans>>
-
-NoRelNL == [i \in 1 .. 5 |-> FALSE]
-GetDone(ok, pdhOK, rel) == GetDoneX(ok, pdhOK, rel, NoRelNL, FALSE)
 
 TypeOK == done \in {"no", "ok", "err"} /\ \A b \in Backends : ans[b] \in Kinds \cup {"none"}
 =============================================================================
